@@ -20,6 +20,7 @@ RULE = ("cases: request strings (comma lists of 1..10 items, each a number or a-
         "(interval algebra). A ValueError is accepted only for combinations the function cannot express. "
         "Non-trivial: >= 2 lines returned and the request mixes ranges and singletons or hits the port_count "
         "boundary; distinct by canonical case")
+RULE += ". Directed classes added after the seeded-change rounds: port-bearing and source-only tcp/udp templates for protocol requests"
 ASSUMPTIONS = ["refsem strict reader; name tables from the library (pinned by C09)",
                "accepted refusals: range item with an eq template under port_range; any singleton item (or "
                "port_range off) with a range template; several eq ports per line on NX-OS; lt/gt templates"]
